@@ -40,6 +40,8 @@ CHECKS = {
          "Every file x 7 readers x {full, 1-byte, halving, 7-byte, data+EOF, a short read at every k-th Read} and an injected non-EOF error at every byte position / k-th Seek (sticky and one-shot): results must not depend on delivery, and after an error the results are a prefix ending in a non-EOF error.", TB, "DESIGN §4 C15"),
  "C17": (MC, "complete enumeration of the finite conformance matrix (416 vectors), tools rebuilt from the tree",
          "All 416 expectations: binaries regenerated by the reference encoder and pinned by the LFS sha256; read tool streamed on all, indexed on the admitted variants, write tool byte-exact on the 208 non-padded ones.", TB, "DESIGN §4 C17"),
+ "C18": (MC, "exhaustive enumeration of generated bags and SQLite databases plus truncation/field-mutation corruptions, converted in isolated worker processes and decoded by the reference decoder",
+         "Every generated bag (connection id sets, shared/distinct type+md5, message variants, every chunk partition x per-chunk compression, repeated connection records, unchunked, 3 writer configurations) and database (topic/type combinations incl. non-message types, QoS column, equal timestamps) at the stated scope must convert to a valid MCAP with every message in order and the right channels/schemas; every truncation and positional field mutation of a bag must yield an error, never a panic, process exit, fatal error or stall.", TB + " The harness' bag encoder follows the ROS bag v2.0 specification; SQLite via the cached go-sqlite3 driver.", "DESIGN §4 C18"),
  "C19": (MC, "exhaustive enumeration of small type graphs, short strings and definition mutations in isolated worker processes",
          "Every type graph at the stated scope (incl. cyclic) must parse to the generating tree (acyclic) and every input - all strings up to length L over a 9-symbol alphabet, all single-token mutations - must return ok/error inside a worker with capped address space and stack, never die or stall.", TB, "DESIGN §4 C19"),
  "C20": (MC, "exhaustive small arrangements plus deterministic large families with the verif slot hook; attachment streaming measured in an idle worker",
